@@ -8,9 +8,10 @@ pdfminer/utils.py on every run; `Plane` is the hand model `PdfVerif.Model.Plane`
 Only property theorems live here (helper lemmas: `Lemmas/Plane.lean`).
 -/
 import PdfVerif.Lemmas.Plane
+import PdfVerif.Lemmas.UtilsList
 
 namespace PdfVerif.Props.C20
-open PdfVerif PdfVerif.Gen.Utils PdfVerif.Plane
+open PdfVerif PdfVerif.Gen.Utils PdfVerif.Plane PdfVerif.UtilsList
 
 /-! ## Affine algebra (all rationals) -/
 
@@ -111,6 +112,8 @@ inductive Reach : Plane.Plane → List PObj → Prop
   | add {p L} (o : PObj) : Reach p L → (∀ o' ∈ p.seq, o'.id ≠ o.id) → WfRect (bboxOf o) →
       Reach (Plane.add p o) (L ++ [o])
   | remove {p L} (o : PObj) : Reach p L → o ∈ L → Reach (Plane.remove p o).1 (L.erase o)
+  /-- an object that was added before and removed since is added again: it becomes the LAST live object -/
+  | readd {p L} (o : PObj) : Reach p L → o ∈ p.seq → o.id ∉ p.objs → Reach (Plane.addPy p o) (L ++ [o])
 
 /-- The representation invariant tying the fields of `Plane` to the live list: a live object is filed
 either under every cell of its box (when those are at most `MAXCELLS`) or, once, in the overflow list. -/
@@ -139,6 +142,110 @@ theorem cells_add (p : Plane.Plane) (o : PObj) (b : Rect) :
 theorem cells_remove (p : Plane.Plane) (o : PObj) (b : Rect) :
     cells? (Plane.remove p o).1 b = cells? p b := cells?_congr (remove_bounds p o) b
 
+/-- The insertion proper keeps the invariant (the list grows at its end). -/
+theorem inv_add {p L} (ih : Inv p L) (o : PObj) (hfresh : ∀ o' ∈ p.seq, o'.id ≠ o.id) (hwf : WfRect (bboxOf o)) :
+    Inv (Plane.add p o) (L ++ [o]) := by
+  have hnot : o.id ∉ p.objs := fun hmem => by
+    obtain ⟨o', ho', hid⟩ := ih.objs_sub _ hmem
+    exact hfresh o' ho' hid
+  have hoL : o ∉ L := fun hmem => by
+    rw [← ih.live] at hmem
+    simp only [Plane.iter, List.mem_filter] at hmem
+    exact hfresh o hmem.1 rfl
+  have hb := add_bounds p o
+  refine { gs := by rw [hb.1]; exact ih.gs, bx := by rw [hb.2.1, hb.2.2.2.1]; exact ih.bx,
+           by' := by rw [hb.2.2.1, hb.2.2.2.2]; exact ih.by', ids := ?_, objs_nodup := ?_, objs_sub := ?_,
+           live := ?_, wf := ?_, grid := ?_, big := ?_ }
+  · rw [add_seq]
+    simp only [List.pairwise_append, List.pairwise_cons, List.not_mem_nil,
+      List.Pairwise.nil, List.mem_cons, or_false]
+    exact ⟨ih.ids, ⟨fun _ h => h.elim, trivial⟩, fun a ha b hb => hb ▸ hfresh a ha⟩
+  · rw [add_objs]
+    simp only [hnot, if_false]
+    rw [List.nodup_append]
+    exact ⟨ih.objs_nodup, by simp, fun a ha b hb => by
+      simp only [List.mem_cons, List.not_mem_nil, or_false] at hb; subst hb
+      exact fun h => hnot (h ▸ ha)⟩
+  · intro i hi
+    rw [add_objs] at hi
+    rw [add_seq]
+    simp only [hnot, if_false, List.mem_append, List.mem_cons, List.not_mem_nil,
+      or_false] at hi ⊢
+    rcases hi with hi | rfl
+    · obtain ⟨o', ho', hid⟩ := ih.objs_sub i hi
+      exact ⟨o', Or.inl ho', hid⟩
+    · exact ⟨o, Or.inr rfl, rfl⟩
+  · rw [← ih.live]
+    simp only [Plane.iter, add_seq, add_objs, hnot, if_false, List.filter_append, List.mem_append,
+      List.mem_cons, List.not_mem_nil, or_false]
+    congr 1
+    · apply List.filter_congr
+      intro a ha
+      have : a.id ≠ o.id := hfresh a ha
+      simp [this]
+    · simp
+  · intro o' ho'
+    rw [add_seq] at ho'
+    simp only [List.mem_append, List.mem_cons, List.not_mem_nil, or_false] at ho'
+    rcases ho' with h | rfl
+    · exact ih.wf o' h
+    · exact hwf
+  · intro k o'
+    simp only [getrange_add, cells_add, List.mem_append, List.mem_cons, List.not_mem_nil, or_false]
+    cases hc : cells? p (bboxOf o) with
+    | none =>
+      rw [(add_big p o hc).1, ih.grid]
+      by_cases h : o' = o
+      · subst h; simp [hoL, hc]
+      · simp [h]
+    | some ks =>
+      have hks := (cells?_some hc).1
+      rw [(add_small p o ks hc).1, foldl_append_pairs, List.count_append, count_map_pair, ih.grid, hks]
+      by_cases h : o' = o
+      · subst h; simp [hoL, hc]
+      · simp [h]
+  · intro o'
+    simp only [cells_add, List.mem_append, List.mem_cons, List.not_mem_nil, or_false]
+    cases hc : cells? p (bboxOf o) with
+    | none =>
+      rw [(add_big p o hc).2, List.count_append, ih.big]
+      by_cases h : o' = o
+      · subst h; simp [hoL, hc]
+      · have : (o == o') = false := by simp [Ne.symm h]
+        simp [h, List.count_cons, this]
+    | some ks =>
+      rw [(add_small p o ks hc).2, ih.big]
+      by_cases h : o' = o
+      · subst h; simp [hoL, hc]
+      · simp [h]
+
+/-- Forgetting the stale `_seq` entry of an object that is not live keeps the invariant (same live list). -/
+theorem inv_forget {p L} (inv : Inv p L) (o : PObj) (hdead : o.id ∉ p.objs) : Inv (Plane.forget p o) L where
+  gs := inv.gs
+  bx := inv.bx
+  by' := inv.by'
+  ids := inv.ids.sublist List.erase_sublist
+  objs_nodup := inv.objs_nodup
+  objs_sub := by
+    intro i hi
+    obtain ⟨o', ho', hid⟩ := inv.objs_sub i hi
+    refine ⟨o', ?_, hid⟩
+    show o' ∈ p.seq.erase o
+    exact (List.mem_erase_of_ne (by rintro rfl; exact hdead (hid ▸ hi))).mpr ho'
+  live := by
+    show (p.seq.erase o).filter (fun o' => decide (o'.id ∈ p.objs)) = L
+    rw [filter_erase_of_false _ _ (by simpa using hdead)]
+    exact inv.live
+  wf := fun o' ho' => inv.wf o' (List.mem_of_mem_erase ho')
+  grid := by
+    intro k o'
+    rw [cells_forget, getrange_forget]
+    exact inv.grid k o'
+  big := by
+    intro o'
+    rw [cells_forget]
+    exact inv.big o'
+
 theorem inv_of_reach {p L} (h : Reach p L) : Inv p L := by
   induction h with
   | init bbox gs hgs hb =>
@@ -147,80 +254,7 @@ theorem inv_of_reach {p L} (h : Reach p L) : Inv p L := by
             objs_nodup := by simp [Plane.init], objs_sub := by simp [Plane.init],
             live := by simp [Plane.init, Plane.iter], wf := by simp [Plane.init],
             grid := by simp [Plane.init], big := by simp [Plane.init] }
-  | @add p L o _ hfresh hwf ih =>
-    have hnot : o.id ∉ p.objs := fun hmem => by
-      obtain ⟨o', ho', hid⟩ := ih.objs_sub _ hmem
-      exact hfresh o' ho' hid
-    have hoL : o ∉ L := fun hmem => by
-      rw [← ih.live] at hmem
-      simp only [Plane.iter, List.mem_filter] at hmem
-      exact hfresh o hmem.1 rfl
-    have hb := add_bounds p o
-    refine { gs := by rw [hb.1]; exact ih.gs, bx := by rw [hb.2.1, hb.2.2.2.1]; exact ih.bx,
-             by' := by rw [hb.2.2.1, hb.2.2.2.2]; exact ih.by', ids := ?_, objs_nodup := ?_, objs_sub := ?_,
-             live := ?_, wf := ?_, grid := ?_, big := ?_ }
-    · rw [add_seq]
-      simp only [List.pairwise_append, List.pairwise_cons, List.not_mem_nil,
-        List.Pairwise.nil, List.mem_cons, or_false]
-      exact ⟨ih.ids, ⟨fun _ h => h.elim, trivial⟩, fun a ha b hb => hb ▸ hfresh a ha⟩
-    · rw [add_objs]
-      simp only [hnot, if_false]
-      rw [List.nodup_append]
-      exact ⟨ih.objs_nodup, by simp, fun a ha b hb => by
-        simp only [List.mem_cons, List.not_mem_nil, or_false] at hb; subst hb
-        exact fun h => hnot (h ▸ ha)⟩
-    · intro i hi
-      rw [add_objs] at hi
-      rw [add_seq]
-      simp only [hnot, if_false, List.mem_append, List.mem_cons, List.not_mem_nil,
-        or_false] at hi ⊢
-      rcases hi with hi | rfl
-      · obtain ⟨o', ho', hid⟩ := ih.objs_sub i hi
-        exact ⟨o', Or.inl ho', hid⟩
-      · exact ⟨o, Or.inr rfl, rfl⟩
-    · rw [← ih.live]
-      simp only [Plane.iter, add_seq, add_objs, hnot, if_false, List.filter_append, List.mem_append,
-        List.mem_cons, List.not_mem_nil, or_false]
-      congr 1
-      · apply List.filter_congr
-        intro a ha
-        have : a.id ≠ o.id := hfresh a ha
-        simp [this]
-      · simp
-    · intro o' ho'
-      rw [add_seq] at ho'
-      simp only [List.mem_append, List.mem_cons, List.not_mem_nil, or_false] at ho'
-      rcases ho' with h | rfl
-      · exact ih.wf o' h
-      · exact hwf
-    · intro k o'
-      simp only [getrange_add, cells_add, List.mem_append, List.mem_cons, List.not_mem_nil, or_false]
-      cases hc : cells? p (bboxOf o) with
-      | none =>
-        rw [(add_big p o hc).1, ih.grid]
-        by_cases h : o' = o
-        · subst h; simp [hoL, hc]
-        · simp [h]
-      | some ks =>
-        have hks := (cells?_some hc).1
-        rw [(add_small p o ks hc).1, foldl_append_pairs, List.count_append, count_map_pair, ih.grid, hks]
-        by_cases h : o' = o
-        · subst h; simp [hoL, hc]
-        · simp [h]
-    · intro o'
-      simp only [cells_add, List.mem_append, List.mem_cons, List.not_mem_nil, or_false]
-      cases hc : cells? p (bboxOf o) with
-      | none =>
-        rw [(add_big p o hc).2, List.count_append, ih.big]
-        by_cases h : o' = o
-        · subst h; simp [hoL, hc]
-        · have : (o == o') = false := by simp [Ne.symm h]
-          simp [h, List.count_cons, this]
-      | some ks =>
-        rw [(add_small p o ks hc).2, ih.big]
-        by_cases h : o' = o
-        · subst h; simp [hoL, hc]
-        · simp [h]
+  | @add p L o _ hfresh hwf ih => exact inv_add ih o hfresh hwf
   | @remove p L o _ hmem ih =>
     have hlive : o ∈ Plane.iter p := ih.live ▸ hmem
     have hseq : o ∈ p.seq := by
@@ -286,6 +320,14 @@ theorem inv_of_reach {p L} (h : Reach p L) : Inv p L := by
         by_cases h : o' = o
         · subst h; simp [hiff, hc]
         · simp [h, hiff]
+  | @readd p L o _ hseq hdead ih =>
+    rw [addPy_readd p o hdead hseq]
+    have hnd : p.seq.Nodup := ih.ids.imp (fun hne heq => hne (congrArg PObj.id heq))
+    refine inv_add (inv_forget ih o hdead) o ?_ (ih.wf o hseq)
+    intro o' ho' hid
+    have ho'' : o' ∈ p.seq.erase o := ho'
+    rw [hnd.mem_erase_iff] at ho''
+    exact ho''.1 (eq_of_id_eq ih.ids ho''.2 hseq hid)
 
 /-- **find = brute force.**  After any sequence of insertions and removals - objects in the overflow list
 included -, for every well-formed query box - also one that covers more than `MAXCELLS` cells -, `find`
@@ -387,7 +429,7 @@ def exA : PObj := ⟨1, -7/10, -7/10, -3/5, -3/5⟩       -- negative fractional
 def exB : PObj := ⟨2, 60, 60, 70, 70⟩
 def exP : Plane.Plane := (Plane.remove (Plane.add (Plane.add (Plane.init (0, 0, 100, 100) 50) exA) exB) exB).1
 
-example : Reach exP [exA] := by
+theorem exP_reach : Reach exP [exA] := by
   have h0 := Reach.init (0, 0, 100, 100) 50 (by decide) (by unfold WfRect; decide +kernel)
   have h1 := Reach.add exA h0 (by simp [Plane.init]) (by unfold WfRect bboxOf exA; decide +kernel)
   have h2 := Reach.add exB h1 (by simp [Plane.init, Plane.add, exA, exB]) (by unfold WfRect bboxOf exB; decide +kernel)
@@ -395,5 +437,374 @@ example : Reach exP [exA] := by
   have : ([] ++ [exA] ++ [exB]).erase exB = [exA] := by decide +kernel
   rw [this] at h3
   exact h3
+
+/-! ## Round 6: the whole public interface of `Plane`, for every history
+
+`remove` of an object that is not in the index (removed before, or never added) raises `KeyError` and
+leaves the index exactly as it was; `__contains__`, `__len__` and `extend` agree with the brute-force
+list; `plane_history` lifts all of it (and, through `Reach`, every theorem above) to arbitrary
+interleavings of `add` / `extend` / `remove` (live or absent). -/
+
+/-- **Removing an absent object** is `KeyError` and changes NOTHING (the grid edits that `remove`
+performs before `set.remove` raises find nothing to delete). -/
+theorem plane_remove_absent {p L} (h : Reach p L) (o : PObj) (ho : o.id ∉ p.objs) :
+    Plane.remove p o = (p, false) := by
+  have inv := inv_of_reach h
+  have hL : o ∉ L := by
+    rw [← inv.live]
+    simp only [Plane.iter, List.mem_filter, decide_eq_true_eq, not_and]
+    exact fun _ => ho
+  have hg : ∀ k, (k, o) ∉ p.grid := by
+    intro k hk
+    have := inv.grid k o
+    simp only [hL, false_and, if_false] at this
+    have hpos := List.count_pos_iff.mpr hk
+    omega
+  have hb : o ∉ p.big := by
+    intro hk
+    have := inv.big o
+    simp only [hL, false_and, if_false] at this
+    have hpos := List.count_pos_iff.mpr hk
+    omega
+  unfold Plane.remove
+  simp only [ho, if_false]
+  cases hc : cells? p (bboxOf o) with
+  | none => simp only [List.erase_of_not_mem hb]
+  | some ks => simp only [foldl_erase_absent ks o p.grid hg]
+
+/-- `remove` succeeds exactly on the objects `__contains__` reports. -/
+theorem plane_remove_ok_iff (p : Plane.Plane) (o : PObj) :
+    (Plane.remove p o).2 = true ↔ Plane.contains p o = true := by
+  unfold Plane.remove Plane.contains
+  by_cases h : o.id ∈ p.objs <;> simp [h]
+
+/-- **`__contains__`** = membership (by identity) in the brute-force list of live objects. -/
+theorem plane_contains {p L} (h : Reach p L) (o : PObj) :
+    Plane.contains p o = true ↔ ∃ o' ∈ L, o'.id = o.id := by
+  have inv := inv_of_reach h
+  simp only [Plane.contains, decide_eq_true_eq]
+  constructor
+  · intro ho
+    obtain ⟨o', ho', hid⟩ := inv.objs_sub _ ho
+    refine ⟨o', ?_, hid⟩
+    rw [← inv.live]
+    simp only [Plane.iter, List.mem_filter, decide_eq_true_eq]
+    exact ⟨ho', hid ▸ ho⟩
+  · rintro ⟨o', ho', hid⟩
+    rw [← inv.live] at ho'
+    simp only [Plane.iter, List.mem_filter, decide_eq_true_eq] at ho'
+    exact hid ▸ ho'.2
+
+/-- For an object that was handed to the index at some point (so that its id identifies it),
+`obj in plane` is literally `obj ∈ L`. -/
+theorem plane_contains_added {p L} (h : Reach p L) (o : PObj) (ho : o ∈ p.seq) :
+    Plane.contains p o = true ↔ o ∈ L := by
+  have inv := inv_of_reach h
+  rw [plane_contains h o]
+  constructor
+  · rintro ⟨o', ho', hid⟩
+    have hs : o' ∈ p.seq := by
+      rw [← inv.live] at ho'
+      exact (List.mem_filter.mp ho').1
+    exact (eq_of_id_eq inv.ids hs ho hid) ▸ ho'
+  · exact fun hL => ⟨o, hL, rfl⟩
+
+/-- **`__len__`** = number of live objects. -/
+theorem plane_len {p L} (h : Reach p L) : Plane.len p = L.length := by
+  have inv := inv_of_reach h
+  have hnd : ((Plane.iter p).map (fun o => o.id)).Nodup := by
+    rw [List.Nodup, List.pairwise_map]
+    exact inv.ids.filter _
+  have hmem : ∀ i, i ∈ p.objs ↔ i ∈ (Plane.iter p).map (fun o => o.id) := by
+    intro i
+    simp only [List.mem_map, Plane.iter, List.mem_filter, decide_eq_true_eq]
+    constructor
+    · intro hi
+      obtain ⟨o, ho, hid⟩ := inv.objs_sub i hi
+      exact ⟨o, ⟨ho, hid ▸ hi⟩, hid⟩
+    · rintro ⟨o, ⟨_, ho⟩, rfl⟩
+      exact ho
+  have := length_eq_of_nodup_of_mem_iff inv.objs_nodup hnd hmem
+  rw [List.length_map, inv.live] at this
+  exact this
+
+/-- **`extend`** = appending the new objects, in order, to the brute-force list. -/
+theorem plane_extend {p L} (h : Reach p L) (os : List PObj)
+    (hfresh : ∀ o ∈ os, ∀ o' ∈ p.seq, o'.id ≠ o.id)
+    (hd : os.Pairwise (fun a b => a.id ≠ b.id))
+    (hwf : ∀ o ∈ os, WfRect (bboxOf o)) :
+    Reach (Plane.extend p os) (L ++ os) := by
+  induction os generalizing p L with
+  | nil => simpa [extend_nil] using h
+  | cons o os ih =>
+    have hnotseq : o ∉ p.seq := fun hm => hfresh o (List.mem_cons_self ..) o hm rfl
+    have hnot : o.id ∉ p.objs := fun hm => by
+      obtain ⟨o', ho', hid⟩ := (inv_of_reach h).objs_sub _ hm
+      exact hfresh o (List.mem_cons_self ..) o' ho' hid
+    rw [extend_cons, addPy_fresh p o hnot hnotseq]
+    rw [List.pairwise_cons] at hd
+    have h1 := Reach.add o h (hfresh o (List.mem_cons_self ..)) (hwf o (List.mem_cons_self ..))
+    have := ih h1 (by
+        intro o2 ho2 o' ho'
+        rw [add_seq, List.mem_append, List.mem_singleton] at ho'
+        rcases ho' with ho' | rfl
+        · exact hfresh o2 (List.mem_cons_of_mem _ ho2) o' ho'
+        · exact hd.1 o2 ho2) hd.2 (fun o2 ho2 => hwf o2 (List.mem_cons_of_mem _ ho2))
+    simpa [List.append_assoc] using this
+
+/-- One state-changing call of the public interface. -/
+inductive Op
+  | add (o : PObj)
+  | extend (os : List PObj)
+  | remove (o : PObj)
+
+/-- What the index does … -/
+def Op.run (p : Plane.Plane) : Op → Plane.Plane
+  | .add o => Plane.addPy p o
+  | .extend os => Plane.extend p os
+  | .remove o => (Plane.remove p o).1
+
+/-- … and what the brute-force list does. -/
+def Op.spec (L : List PObj) : Op → List PObj
+  | .add o => if o ∈ L then L else L ++ [o]      -- set-like: an object that is there stays where it is
+  | .extend os => L ++ os
+  | .remove o => L.erase o
+
+/-- The domain: `add` inserts a new well-formed object OR an object that was handed to the index before
+(still live: duplicate `add`, a no-op; removed since: it is added again); a removal targets a live object OR an
+object that is not in the index at all (removed before / never added). -/
+def Op.Ok (p : Plane.Plane) : Op → Prop
+  | .add o => ((∀ o' ∈ p.seq, o'.id ≠ o.id) ∧ WfRect (bboxOf o)) ∨ o ∈ p.seq
+  | .extend os => (∀ o ∈ os, ∀ o' ∈ p.seq, o'.id ≠ o.id) ∧ os.Pairwise (fun a b => a.id ≠ b.id) ∧
+      ∀ o ∈ os, WfRect (bboxOf o)
+  | .remove o => o ∈ Plane.iter p ∨ o.id ∉ p.objs
+
+def HistOk (p : Plane.Plane) : List Op → Prop
+  | [] => True
+  | op :: rest => op.Ok p ∧ HistOk (op.run p) rest
+
+/-- **Arbitrary operation histories.**  Whatever interleaving of `add`, `extend`, `remove` of live objects and
+`remove` of absent objects is applied, the index stays tied to the brute-force list (`Reach`), hence
+`find` / iteration / `in` / `len` keep agreeing with it (`plane_history_bruteforce`). -/
+theorem plane_history {p L} (h : Reach p L) (ops : List Op) (hok : HistOk p ops) :
+    Reach (ops.foldl Op.run p) (ops.foldl Op.spec L) := by
+  induction ops generalizing p L with
+  | nil => exact h
+  | cons op ops ih =>
+    obtain ⟨h1, h2⟩ := hok
+    simp only [List.foldl_cons]
+    refine ih ?_ h2
+    cases op with
+    | add o =>
+      have hLiff : o ∈ L ↔ o ∈ p.seq ∧ o.id ∈ p.objs := by
+        rw [← plane_iter h]
+        simp [Plane.iter]
+      rcases h1 with ⟨hf, hw⟩ | hs
+      · have hnotseq : o ∉ p.seq := fun hm => hf o hm rfl
+        have hnot : o.id ∉ p.objs := fun hm => by
+          obtain ⟨o', ho', hid⟩ := (inv_of_reach h).objs_sub _ hm
+          exact hf o' ho' hid
+        have hL : o ∉ L := fun hm => hnotseq (hLiff.mp hm).1
+        simp only [Op.run, Op.spec, addPy_fresh p o hnot hnotseq, hL, if_false]
+        exact Reach.add o h hf hw
+      · by_cases hlive : o.id ∈ p.objs
+        · have hL : o ∈ L := hLiff.mpr ⟨hs, hlive⟩
+          simp only [Op.run, Op.spec, addPy_live p o hlive, hL, if_true]
+          exact h
+        · have hL : o ∉ L := fun hm => hlive (hLiff.mp hm).2
+          simp only [Op.run, Op.spec, hL, if_false]
+          exact Reach.readd o h hs hlive
+    | extend os => exact plane_extend h os h1.1 h1.2.1 h1.2.2
+    | remove o =>
+      rcases h1 with h1 | h1
+      · exact Reach.remove o h (by rw [← plane_iter h]; exact h1)
+      · have hL : o ∉ L := by
+          rw [← plane_iter h]
+          simp only [Plane.iter, List.mem_filter, decide_eq_true_eq, not_and]
+          exact fun _ => h1
+        simp only [Op.run, Op.spec, plane_remove_absent h o h1, List.erase_of_not_mem hL]
+        exact h
+
+/-- Everything observable after an arbitrary history on a fresh index equals brute force on the list. -/
+theorem plane_history_bruteforce (bbox : Rect) (gs : Int) (hgs : 0 < gs) (hb : WfRect bbox)
+    (ops : List Op) (hok : HistOk (Plane.init bbox gs) ops) (q : Rect) (hq : WfRect q) :
+    let p := ops.foldl Op.run (Plane.init bbox gs)
+    let L := ops.foldl Op.spec []
+    Plane.find p q = L.filter (fun o => overlaps o q) ∧ Plane.iter p = L ∧ Plane.len p = L.length ∧
+      ∀ o, Plane.contains p o = true ↔ ∃ o' ∈ L, o'.id = o.id := by
+  intro p L
+  have h : Reach p L := plane_history (Reach.init bbox gs hgs hb) ops hok
+  refine ⟨?_, plane_iter h, plane_len h, plane_contains h⟩
+  rw [plane_find_order h q hq, Plane.findSpec, plane_iter h]
+
+/-! ### Non-vacuity (round 6): a history with an `extend`, a live removal, an absent removal. -/
+
+def exC : PObj := ⟨3, 10, 10, 10, 20⟩        -- zero-width object
+/-- extend; remove (live); remove (absent: KeyError); add; remove (never added); add of a live object (no-op);
+add of the removed object again (it becomes the last one). -/
+def exOps : List Op :=
+  [.extend [exA, exB], .remove exB, .remove exB, .add exC, .remove ⟨9, 0, 0, 1, 1⟩, .add exA, .add exB]
+
+example : HistOk (Plane.init (0, 0, 100, 100) 50) exOps := by
+  simp only [exOps, HistOk, Op.Ok, Op.run, and_true]
+  refine ⟨⟨?_, ?_, ?_⟩, ?_, ?_, Or.inl ⟨?_, ?_⟩, ?_, Or.inr ?_, Or.inr ?_⟩
+  · simp [Plane.init]
+  · simp [exA, exB]
+  · intro o ho
+    simp only [List.mem_cons, List.not_mem_nil, or_false] at ho
+    rcases ho with rfl | rfl <;> (unfold WfRect bboxOf; decide +kernel)
+  · left; decide +kernel
+  · right; decide +kernel
+  · decide +kernel
+  · unfold WfRect bboxOf; decide +kernel
+  · right; decide +kernel
+  · decide +kernel
+  · decide +kernel
+
+example : exOps.foldl Op.spec [] = [exA, exC, exB] := by decide +kernel
+example : Plane.iter (exOps.foldl Op.run (Plane.init (0, 0, 100, 100) 50)) = [exA, exC, exB] := by decide +kernel
+example : Plane.remove exP exB = (exP, false) := plane_remove_absent exP_reach exB (by decide +kernel)
+
+/-- Adding an object that is live is a no-op (set-like). -/
+theorem plane_add_live {p L} (h : Reach p L) (o : PObj) (ho : o ∈ L) : Plane.addPy p o = p := by
+  rw [← plane_iter h] at ho
+  simp only [Plane.iter, List.mem_filter, decide_eq_true_eq] at ho
+  exact addPy_live p o ho.2
+
+/-- Why `Plane.add` needs its guard (the behaviour before the repair, `Plane.add` = the unguarded insertion):
+filing a live object a second time leaves, after `remove`, a stale grid entry - `find` reports an object that
+is not in the index any more. -/
+theorem plane_unguarded_double_add_cex :
+    let p := (Plane.remove (Plane.add (Plane.add (Plane.init (0, 0, 100, 100) 50) exB) exB) exB).1
+    Plane.find p (55, 55, 75, 75) = [exB] ∧ Plane.iter p = [] ∧ Plane.len p = 0 := by decide +kernel
+
+/-- … and without dropping the stale `_seq` entry a re-added object is iterated twice. -/
+theorem plane_unguarded_readd_cex :
+    let p := Plane.add (Plane.remove (Plane.add (Plane.init (0, 0, 100, 100) 50) exB) exB).1 exB
+    Plane.iter p = [exB, exB] ∧ Plane.len p = 1 := by decide +kernel
+
+/-- The repaired `add` on the same histories. -/
+example :
+    let p := (Plane.remove (Plane.addPy (Plane.addPy (Plane.init (0, 0, 100, 100) 50) exB) exB) exB).1
+    Plane.find p (55, 55, 75, 75) = [] ∧ Plane.iter p = [] := by decide +kernel
+example :
+    let p := Plane.addPy (Plane.remove (Plane.addPy (Plane.init (0, 0, 100, 100) 50) exB) exB).1 exB
+    Plane.iter p = [exB] ∧ Plane.len p = 1 := by decide +kernel
+
+/-! ## Round 6: list helpers of utils.py (`get_bound`, `uniq`, `fsplit`; regenerated definitions) -/
+
+/-- `get_bound` of no points is the initial limit. -/
+theorem get_bound_nil :
+    get_bound [] = (((INF : Int) : Rat), ((INF : Int) : Rat), -((INF : Int) : Rat), -((INF : Int) : Rat)) := rfl
+
+/-- `get_bound` covers every point - for ALL point lists … -/
+theorem get_bound_contains (pts : List Point) (p : Point) (hp : p ∈ pts) :
+    (get_bound pts).1 ≤ p.1 ∧ p.1 ≤ (get_bound pts).2.2.1 ∧
+    (get_bound pts).2.1 ≤ p.2 ∧ p.2 ≤ (get_bound pts).2.2.2 := by
+  unfold get_bound
+  rw [foldl_get_bound_step]
+  exact ⟨(foldl_min_le (fun p : Point => p.1) pts _).2 p hp, (foldl_max_le (fun p : Point => p.1) pts _).2 p hp,
+    (foldl_min_le (fun p : Point => p.2) pts _).2 p hp, (foldl_max_le (fun p : Point => p.2) pts _).2 p hp⟩
+
+/-- … each bound is either attained by a point or still the initial limit `±INF`, and never beyond it … -/
+theorem get_bound_attained_or_limit (pts : List Point) :
+    ((get_bound pts).1 = (INF : Int) ∨ ∃ p ∈ pts, p.1 = (get_bound pts).1) ∧
+    ((get_bound pts).2.1 = (INF : Int) ∨ ∃ p ∈ pts, p.2 = (get_bound pts).2.1) ∧
+    ((get_bound pts).2.2.1 = -((INF : Int) : Rat) ∨ ∃ p ∈ pts, p.1 = (get_bound pts).2.2.1) ∧
+    ((get_bound pts).2.2.2 = -((INF : Int) : Rat) ∨ ∃ p ∈ pts, p.2 = (get_bound pts).2.2.2) := by
+  unfold get_bound
+  rw [foldl_get_bound_step]
+  exact ⟨foldl_min_mem (fun p : Point => p.1) pts _, foldl_min_mem (fun p : Point => p.2) pts _,
+    foldl_max_mem (fun p : Point => p.1) pts _, foldl_max_mem (fun p : Point => p.2) pts _⟩
+
+/-- … so for a non-empty list of points inside `[-INF, INF]²` it is the TIGHT hull ("minimal rectangle that
+covers all the points"): each of the four bounds is attained. -/
+theorem get_bound_tight (pts : List Point) (hne : pts ≠ [])
+    (hin : ∀ p ∈ pts, -((INF : Int) : Rat) ≤ p.1 ∧ p.1 ≤ (INF : Int) ∧ -((INF : Int) : Rat) ≤ p.2 ∧ p.2 ≤ (INF : Int)) :
+    (∃ p ∈ pts, p.1 = (get_bound pts).1) ∧ (∃ p ∈ pts, p.2 = (get_bound pts).2.1) ∧
+    (∃ p ∈ pts, p.1 = (get_bound pts).2.2.1) ∧ (∃ p ∈ pts, p.2 = (get_bound pts).2.2.2) := by
+  obtain ⟨p0, hp0⟩ := List.exists_mem_of_ne_nil pts hne
+  have hc := get_bound_contains pts p0 hp0
+  have hb := hin p0 hp0
+  obtain ⟨h1, h2, h3, h4⟩ := get_bound_attained_or_limit pts
+  refine ⟨?_, ?_, ?_, ?_⟩
+  · rcases h1 with h | h
+    · exact ⟨p0, hp0, by rw [h] at hc ⊢; exact Rat.le_antisymm hb.2.1 hc.1⟩
+    · exact h
+  · rcases h2 with h | h
+    · exact ⟨p0, hp0, by rw [h] at hc ⊢; exact Rat.le_antisymm hb.2.2.2 hc.2.2.1⟩
+    · exact h
+  · rcases h3 with h | h
+    · exact ⟨p0, hp0, by rw [h] at hc ⊢; exact Rat.le_antisymm hc.2.1 hb.1⟩
+    · exact h
+  · rcases h4 with h | h
+    · exact ⟨p0, hp0, by rw [h] at hc ⊢; exact Rat.le_antisymm hc.2.2.2 hb.2.2.1⟩
+    · exact h
+
+/-- The box of a transformed rectangle IS `get_bound` of the four transformed corners (whenever those lie
+inside `get_bound`'s limit): the two "hull" helpers of utils.py agree. -/
+theorem rect_eq_get_bound (m : Matrix) (r : Rect)
+    (hin : ∀ c ∈ corners r, -((INF : Int) : Rat) ≤ (apply_matrix_pt m c).1 ∧ (apply_matrix_pt m c).1 ≤ (INF : Int) ∧
+      -((INF : Int) : Rat) ≤ (apply_matrix_pt m c).2 ∧ (apply_matrix_pt m c).2 ≤ (INF : Int)) :
+    apply_matrix_rect m r = get_bound ((corners r).map (apply_matrix_pt m)) := by
+  obtain ⟨a1, a2, a3, a4, a5, a6⟩ := m
+  obtain ⟨x0, y0, x1, y1⟩ := r
+  simp only [corners, List.mem_cons, List.not_mem_nil, or_false, forall_eq_or_imp, forall_eq] at hin
+  simp only [corners, List.map, get_bound, List.foldl, get_bound_step, apply_matrix_rect, apply_matrix_pt] at hin ⊢
+  obtain ⟨⟨h1, h2, h3, h4⟩, ⟨h5, h6, h7, h8⟩, ⟨h9, h10, h11, h12⟩, ⟨h13, h14, h15, h16⟩⟩ := hin
+  refine Prod.ext ?_ (Prod.ext ?_ (Prod.ext ?_ ?_)) <;> simp only [] <;> grind
+
+/-- **`uniq`** yields exactly the first occurrences, in order (`firstOcc` is the specification) … -/
+theorem uniq_spec (l : List Int) : uniq l = firstOcc l := by
+  unfold uniq
+  rw [uniqGo_eq]
+  simp
+
+/-- … i.e. the same elements, each once, as a sub-sequence of the input. -/
+theorem uniq_props (l : List Int) :
+    (∀ x, x ∈ uniq l ↔ x ∈ l) ∧ (uniq l).Nodup ∧ (uniq l).Sublist l := by
+  rw [uniq_spec]
+  exact ⟨fun _ => mem_firstOcc, nodup_firstOcc l, sublist_firstOcc l⟩
+
+/-- `uniq` is idempotent. -/
+theorem uniq_idem (l : List Int) : uniq (uniq l) = uniq l := by
+  rw [uniq_spec, uniq_spec]
+  have : ∀ l : List Int, l.Nodup → firstOcc l = l := by
+    intro l
+    induction l with
+    | nil => intro _; rfl
+    | cons x rest ih =>
+      intro h
+      rw [List.nodup_cons] at h
+      simp only [firstOcc, ih h.2, List.cons.injEq, true_and]
+      rw [List.filter_eq_self]
+      intro y hy
+      simp only [ne_eq, decide_eq_true_eq]
+      rintro rfl
+      exact h.1 hy
+  exact this _ (nodup_firstOcc l)
+
+/-- **`fsplit`** = (the elements satisfying the predicate, the others), both in input order. -/
+theorem fsplit_spec (pred : Int → Bool) (l : List Int) :
+    fsplit pred l = (l.filter pred, l.filter (fun x => !pred x)) := by
+  unfold fsplit
+  rw [fsplitGo_eq]
+  simp
+
+/-- Nothing is lost or invented by `fsplit`. -/
+theorem fsplit_length (pred : Int → Bool) (l : List Int) :
+    (fsplit pred l).1.length + (fsplit pred l).2.length = l.length := by
+  simp only [fsplit_spec]
+  induction l with
+  | nil => rfl
+  | cons x rest ih =>
+    by_cases hx : pred x = true <;> simp only [List.filter_cons, hx, if_true, Bool.not_true, Bool.not_false,
+      Bool.false_eq_true, if_false, List.length_cons] <;> omega
+
+example : get_bound [((3 : Rat), (-7 : Rat) / 2), (-1, 4), (3, 4)] = (-1, (-7 : Rat) / 2, 3, 4) := by decide +kernel
+example : uniq [3, 1, 3, 2, 1] = [3, 1, 2] := by decide +kernel
+example : fsplit (fun x => decide (x < 2)) [3, 1, 0, 2] = ([1, 0], [3, 2]) := by decide +kernel
+example : apply_matrix_rect (0, 1, -1, 0, 5, 0) (0, 0, 2, 1) =
+    get_bound ((corners (0, 0, 2, 1)).map (apply_matrix_pt (0, 1, -1, 0, 5, 0))) := by decide +kernel
 
 end PdfVerif.Props.C20
